@@ -74,7 +74,7 @@ Load(p) == p
 Names == {"a1", "b2", "c3", STRICT_S}
 Lists(S) == UNION {[1..k -> S] : k \in 0..MaxLen}
 NELists(S) == UNION {[1..k -> S] : k \in 1..MaxLen}
-Sizes == {1024, 2048, 3072, 4096}
+Sizes == {512, 768, 1024, 2048, 3072, 4096, 16384}        \* (numbers of three, four and five digits: sizes are compared as numbers)
 EmptyMap == [x \in {} |-> 0]
 NoPeer == [banner |-> "B", comp |-> <<"none">>, key |-> <<>>, kex |-> <<>>, enc |-> <<>>, mac |-> <<>>, hks |-> EmptyMap, dhs |-> EmptyMap]
 NoPolicy == [banner |-> "", comp |-> <<>>, key |-> <<>>, opt |-> <<>>, kex |-> <<>>, enc |-> <<>>, mac |-> <<>>, has |-> {},
@@ -88,6 +88,10 @@ McPairs ==
     \cup \* key exchanges with the strict marker
     {<<[NoPolicy EXCEPT !.has = {"kex"}, !.kex = k, !.subset = s], [NoPeer EXCEPT !.kex = pk]>> :
         k \in NELists(Names), s \in BOOLEAN, pk \in Lists(Names)}
+    \cup \* ... and with both markers in play (each marker the policy lists is mandatory on its own)
+    {<<[NoPolicy EXCEPT !.has = {"kex"}, !.kex = k, !.subset = TRUE], [NoPeer EXCEPT !.kex = pk]>> :
+        k \in {<<"a1", STRICT_S, STRICT_C>>, <<STRICT_C, STRICT_S>>, <<STRICT_C, "a1">>},
+        pk \in {<<"a1">>, <<"a1", STRICT_S>>, <<"a1", STRICT_C>>, <<STRICT_S, STRICT_C>>, <<"a1", STRICT_C, STRICT_S>>, <<STRICT_C>>, <<STRICT_S>>}}
     \cup \* ciphers, MACs
     {<<[NoPolicy EXCEPT !.has = {"enc", "mac"}, !.enc = k, !.mac = <<"a1">>, !.subset = s], [NoPeer EXCEPT !.enc = pk, !.mac = pm]>> :
         k \in NELists(Names \ {STRICT_S}), s \in BOOLEAN, pk \in Lists(Names \ {STRICT_S}), pm \in {<<"a1">>, <<"b2">>, <<"a1", "b2">>}}
@@ -99,7 +103,7 @@ McPairs ==
     \cup \* group-exchange moduli
     {<<[NoPolicy EXCEPT !.dhs = [a \in {"gex256"} |-> w], !.larger = lg],
        [NoPeer EXCEPT !.dhs = IF present THEN [a \in {"gex256"} |-> g] ELSE EmptyMap]>> :
-        w \in {2048, 3072}, lg \in BOOLEAN, present \in BOOLEAN, g \in Sizes}
+        w \in {768, 2048, 3072}, lg \in BOOLEAN, present \in BOOLEAN, g \in Sizes}
     \cup \* banner and compression
     {<<[NoPolicy EXCEPT !.has = h, !.banner = "B", !.comp = <<"none">>], [NoPeer EXCEPT !.banner = b, !.comp = c]>> :
         h \in SUBSET {"banner", "comp"}, b \in {"B", "C"}, c \in {<<"none">>, <<"zlib">>, <<"none", "zlib">>}}
